@@ -1,7 +1,7 @@
 //! C03 - Derivatives are tracked by variable name, whatever the internal layout.
 
 use crate::engine::*;
-use crate::props::adcommon::NAMES;
+use crate::props::adcommon::{index_of, name_of, NAMES};
 use crate::util::*;
 use proptest::prelude::*;
 use rateslib::dual::{Dual, Dual2, Gradient1, Gradient2, Vars};
@@ -39,6 +39,10 @@ pub struct Case {
     /// if the two layouts are identical, build b on a's variable storage (shared Arc)
     pub share: bool,
     pub op: BinOp,
+    /// memory representation: bit 0 / bit 1 = operand a / b holds its derivative arrays in reversed
+    /// memory order (negative strides; same logical content), as `clone_from` accepts them
+    #[serde(default)]
+    pub rev: u8,
 }
 
 pub struct C03;
@@ -53,7 +57,7 @@ pub struct ByName {
 
 impl Operand {
     pub fn names(&self) -> Vec<String> {
-        self.layout.iter().map(|i| NAMES[*i as usize].to_string()).collect()
+        self.layout.iter().map(|i| name_of(*i)).collect()
     }
     pub fn d1v(&self) -> Vec<f64> {
         let n = self.layout.len();
@@ -215,7 +219,7 @@ macro_rules! impl_run {
                         None => make::<$T>(o.real.0, o.names(), o.d1v(), o.d2m()),
                         Some(l) => {
                             let (d1, d2) = o.on_list(l, $second);
-                            make::<$T>(o.real.0, l.iter().map(|i| NAMES[*i as usize].to_string()).collect(), d1, d2)
+                            make::<$T>(o.real.0, l.iter().map(|i| name_of(*i)).collect(), d1, d2)
                         }
                     }
                 };
@@ -224,10 +228,12 @@ macro_rules! impl_run {
                     // same list: build on a's storage so that the Arc is shared
                     let l: Vec<u8> = a_list.map(|l| l.to_vec()).unwrap_or_else(|| c.a.layout.clone());
                     let (d1, d2) = c.b.on_list(&l, $second);
-                    make_from::<$T>(&a, c.b.real.0, l.iter().map(|i| NAMES[*i as usize].to_string()).collect(), d1, d2)
+                    make_from::<$T>(&a, c.b.real.0, l.iter().map(|i| name_of(*i)).collect(), d1, d2)
                 } else {
                     mk(&c.b, None)
                 };
+                let a = if c.rev & 1 == 1 { a.reversed_memory() } else { a };
+                let b = if c.rev & 2 == 2 { b.reversed_memory() } else { b };
                 if c.op == BinOp::Eq {
                     let e1 = a == b;
                     let e2 = b == a;
@@ -254,11 +260,17 @@ trait Make: Sized {
     fn mk(real: f64, names: Vec<String>, d1: Vec<f64>, d2: Vec<f64>) -> Self;
     fn mk_from(other: &Self, real: f64, names: Vec<String>, d1: Vec<f64>, d2: Vec<f64>) -> Self;
     fn read(&self, names: &[String]) -> (ByName, Option<String>);
+    /// the same number, its arrays stored back to front in memory (negative strides)
+    fn reversed_memory(&self) -> Self;
 }
 fn idx(name: &str) -> u8 {
-    NAMES.iter().position(|n| *n == name).map_or(255, |p| p as u8)
+    index_of(name)
 }
 impl Make for Dual {
+    fn reversed_memory(&self) -> Self {
+        let d1: Vec<f64> = self.dual().iter().rev().cloned().collect();
+        Dual::clone_from(self, self.real(), ndarray::Array1::from_vec(d1).slice_move(ndarray::s![..;-1]))
+    }
     fn mk(real: f64, names: Vec<String>, d1: Vec<f64>, _d2: Vec<f64>) -> Self {
         if names.is_empty() {
             Dual::new(real, vec![])
@@ -285,6 +297,14 @@ impl Make for Dual {
     }
 }
 impl Make for Dual2 {
+    fn reversed_memory(&self) -> Self {
+        let d1: Vec<f64> = self.dual().iter().rev().cloned().collect();
+        let n = d1.len();
+        let d2: Vec<f64> = self.dual2().iter().cloned().collect::<Vec<_>>().into_iter().rev().collect();
+        let a1 = ndarray::Array1::from_vec(d1).slice_move(ndarray::s![..;-1]);
+        let a2 = ndarray::Array2::from_shape_vec((n, n), d2).expect("shape").slice_move(ndarray::s![..;-1, ..;-1]);
+        Dual2::clone_from(self, self.real(), a1, a2)
+    }
     fn mk(real: f64, names: Vec<String>, d1: Vec<f64>, d2: Vec<f64>) -> Self {
         if names.is_empty() {
             Dual2::new(real, vec![])
@@ -373,6 +393,9 @@ impl Property for C03 {
         let private = c.a.layout.iter().any(|n| !c.b.layout.contains(n)) || c.b.layout.iter().any(|n| !c.a.layout.contains(n));
         v.nt(c.a.layout != c.b.layout && (order_differs || private));
         v.label_if(c.a.d1v().iter().any(|x| *x == 0.0) || c.b.d1v().iter().any(|x| *x == 0.0), "zero-padding");
+        v.label_if(c.rev != 0, "memory:reversed-arrays");
+        v.label_if(c.a.layout.len().max(c.b.layout.len()) > 16, "wide:>16-names");
+        v.label_if({ let mut u = c.a.layout.clone(); u.extend(c.b.layout.iter()); u.sort(); u.dedup(); u.len() > 64 }, "wide:union>64-names");
 
         let run = |list: Option<&[u8]>| if second { run_dual2(c, list) } else { run_dual(c, list) };
         let direct = match run(None) {
@@ -418,7 +441,8 @@ impl Property for C03 {
         let mut sorted = names.clone();
         sorted.sort();
         let dup = sorted.windows(2).any(|w| w[0] == w[1]);
-        let expect_names: Vec<String> = full.iter().map(|i| NAMES[*i as usize].to_string()).collect();
+        let mut expect_names: Vec<String> = full.iter().map(|i| name_of(*i)).collect();
+        expect_names.sort();
         if dup || sorted != expect_names {
             v.fail(
                 "result variables are not the union of the operand variables",
@@ -438,7 +462,7 @@ impl Property for C03 {
             if !((g - e).abs() <= tol(get1(&mag.d1, *n))) {
                 v.fail(
                     "first derivative by name differs from the by-name formula",
-                    format!("d/d{}: result {:e}, formula {:e}; a = {:?} on {:?}; b = {:?} on {:?}", NAMES[*n as usize], g, e, a, c.a.layout, b, c.b.layout),
+                    format!("d/d{}: result {:e}, formula {:e}; a = {:?} on {:?}; b = {:?} on {:?}", name_of(*n), g, e, a, c.a.layout, b, c.b.layout),
                 );
                 return v;
             }
@@ -449,7 +473,7 @@ impl Property for C03 {
                     if !((g - e).abs() <= tol(get2(&mag.d2, k))) {
                         v.fail(
                             "second derivative by name differs from the by-name formula",
-                            format!("d2/d{}d{}: result {:e}, formula {:e}; a = {:?} on {:?}; b = {:?} on {:?}", NAMES[*n as usize], NAMES[*m as usize], g, e, a, c.a.layout, b, c.b.layout),
+                            format!("d2/d{}d{}: result {:e}, formula {:e}; a = {:?} on {:?}; b = {:?} on {:?}", name_of(*n), name_of(*m), g, e, a, c.a.layout, b, c.b.layout),
                         );
                         return v;
                     }
@@ -494,10 +518,10 @@ impl Property for C03 {
                                 if share && la != lb {
                                     continue;
                                 }
-                                out.push(Case { second_order: second, a: fixed_operand(&la, 0), b: fixed_operand(&lb, 1), share, op });
+                                out.push(Case { second_order: second, a: fixed_operand(&la, 0), b: fixed_operand(&lb, 1), share, op, rev: 0 });
                                 if op == BinOp::Eq {
                                     // equal by name on the common support, zero elsewhere
-                                    out.push(Case { second_order: second, a: equal_operand(&la, &lb), b: equal_operand(&lb, &la), share, op });
+                                    out.push(Case { second_order: second, a: equal_operand(&la, &lb), b: equal_operand(&lb, &la), share, op, rev: 0 });
                                 }
                             }
                         }
@@ -506,16 +530,17 @@ impl Property for C03 {
                 }))
             }),
             Stage::random("random-layouts", tier.pick(1_000_000, 20_000_000), case_strategy),
+            Stage::random("wide-layouts", tier.pick(3_000, 150_000), wide_case_strategy),
         ]
     }
 
     fn rule(&self) -> String {
-        "enumeration: every pair of ordered subsets of a 4-name universe (65 ordered subsets, 4 225 pairs) x {own storage, shared storage when the lists are identical} x {+,-,*,/,%,==} x {Dual, Dual2}, with fixed dyadic coefficients that depend on the variable name; for == additionally pairs that are equal by name on the common support and zero elsewhere. Random: layouts over 8 names (0-5 names each, any order), coefficients with zero padding, pairs constructed equal-by-name in different layouts or differing in exactly one coefficient. Oracle: independent by-name formulas per operator, invariance against the same operands on one shared sorted list, result variables == set union (each once) with matching array shapes, == <=> equal by name with missing == 0. Non-trivial: layouts neither identical nor value-equal and (a shared name in a different relative order or a name private to one side).".into()
+        "enumeration: every pair of ordered subsets of a 4-name universe (65 ordered subsets, 4 225 pairs) x {own storage, shared storage when the lists are identical} x {+,-,*,/,%,==} x {Dual, Dual2}, with fixed dyadic coefficients that depend on the variable name; for == additionally pairs that are equal by name on the common support and zero elsewhere. Random: layouts over 8 names (0-5 names each, any order), coefficients with zero padding, pairs constructed equal-by-name in different layouts or differing in exactly one coefficient; in a quarter of the cases one or both operands hold their arrays in reversed memory order (negative strides, through clone_from). Wide stage: 20-70 names out of 100 per operand (unions beyond 64 and 16-name boundaries), b independent or a's content with two names swapped / extended / one coefficient changed. The name pool contains two pairs that differ in letter case only. Oracle: independent by-name formulas per operator, invariance against the same operands on one shared sorted list, result variables == set union (each once) with matching array shapes, == <=> equal by name with missing == 0. Non-trivial: layouts neither identical nor value-equal and (a shared name in a different relative order or a name private to one side).".into()
     }
 
     fn floors(&self, tier: Tier) -> Vec<Floor> {
         let m = tier.pick(2000u64, 20000);
-        ["layouts:arc-shared", "layouts:value-equal", "layouts:same-set-other-order", "layouts:superset", "layouts:subset", "layouts:disjoint", "layouts:equal-length-overlap", "layouts:one-empty", "eq:true", "eq:false", "zero-padding"]
+        ["layouts:arc-shared", "layouts:value-equal", "layouts:same-set-other-order", "layouts:superset", "layouts:subset", "layouts:disjoint", "layouts:equal-length-overlap", "layouts:one-empty", "eq:true", "eq:false", "zero-padding", "memory:reversed-arrays", "wide:>16-names"]
             .iter()
             .map(|l| Floor { label: l, min: m })
             .collect()
@@ -613,7 +638,7 @@ fn case_strategy() -> impl Strategy<Value = Case> {
         2 => (layout8(), any::<bool>()).prop_map(|(l, s)| Relate::Permuted(l, s)),
         2 => (layout8(), any::<u16>(), coeff()).prop_map(|(l, i, c)| Relate::OneOff(l, i, c)),
     ];
-    (any::<bool>(), operand(), operand(), any::<bool>(), prop::sample::select(OPS.to_vec()), relate).prop_map(|(second_order, a, mut b, share, op, relate)| {
+    (any::<bool>(), operand(), operand(), any::<bool>(), prop::sample::select(OPS.to_vec()), relate, prop_oneof![3 => Just(0u8), 1 => 1u8..4]).prop_map(|(second_order, a, mut b, share, op, relate, rev)| {
         let re_express = |a: &Operand, extra: &[u8]| -> Operand {
             // a's content on a permuted layout: a's names reversed, then extra names (zero)
             let mut layout: Vec<u8> = a.layout.iter().rev().cloned().collect();
@@ -650,6 +675,64 @@ fn case_strategy() -> impl Strategy<Value = Case> {
                 }
             }
         }
-        Case { second_order, a, b, share, op }
+        Case { second_order, a, b, share, op, rev }
+    })
+}
+
+/// Wide variable lists (what curves with many nodes produce): 20-70 names out of 100 per operand in
+/// any order; b is independent, or a's content on a re-ordered / extended list, or that with one
+/// coefficient changed. Sparse content with non-zero entries at any position, early and late.
+fn wide_case_strategy() -> impl Strategy<Value = Case> {
+    let wide_layout = || (proptest::collection::vec(any::<u16>(), 100), 20usize..=70).prop_map(|(keys, n)| {
+        let mut idx: Vec<u8> = (0u8..100).collect();
+        idx.sort_by_key(|i| keys[*i as usize]);
+        idx.truncate(n);
+        idx
+    });
+    let wide_operand = move || (moderate(), wide_layout(), proptest::collection::vec((any::<u16>(), coeff()), 1..12), proptest::collection::vec((any::<u16>(), any::<u16>(), coeff()), 0..12)).prop_map(|(real, layout, g, h)| {
+        let n = layout.len();
+        let mut d1 = vec![Fl(0.0); n];
+        for (i, c) in g {
+            d1[pick(i, n)] = c;
+        }
+        let mut d2 = vec![Fl(0.0); n * (n + 1) / 2];
+        let tri = |i: usize, j: usize| -> usize { let (i, j) = (i.min(j), i.max(j)); i * n - i * (i + 1) / 2 + j };
+        for (i, j, c) in h {
+            d2[tri(pick(i, n), pick(j, n))] = c;
+        }
+        // always something at both ends of the list
+        d1[n - 1] = Fl(0.75);
+        d2[tri(0, n - 1)] = Fl(-0.5);
+        d2[tri(n - 1, n - 1)] = Fl(0.25);
+        Operand { real, layout, d1, d2 }
+    });
+    (any::<bool>(), wide_operand(), wide_operand(), prop::sample::select(OPS.to_vec()), 0u8..4, any::<u16>(), any::<u16>(), coeff(), prop_oneof![3 => Just(0u8), 1 => 1u8..4]).prop_map(|(second_order, a, mut b, op, mode, s1, s2, cf, rev)| {
+        if mode >= 1 {
+            // b := a's content on a's list with two names swapped and b's private names appended
+            let mut layout = a.layout.clone();
+            let n0 = layout.len();
+            layout.swap(pick(s1, n0), pick(s2, n0));
+            if mode >= 2 {
+                for x in &b.layout {
+                    if !layout.contains(x) && layout.len() < 90 {
+                        layout.push(*x);
+                    }
+                }
+            }
+            let (d1, d2full) = a.on_list(&layout, true);
+            let n = layout.len();
+            let mut d2 = Vec::new();
+            for i in 0..n {
+                for j in i..n {
+                    d2.push(Fl(d2full[i * n + j]));
+                }
+            }
+            b = Operand { real: a.real, layout, d1: d1.into_iter().map(Fl).collect(), d2 };
+            if mode == 3 {
+                let k = pick(s2, b.d1.len());
+                b.d1[k] = Fl(b.d1[k].0 + cf.0 + 0.5);
+            }
+        }
+        Case { second_order, a, b, share: false, op, rev }
     })
 }
